@@ -134,8 +134,32 @@ func obsAt(ex *Exec, b int, f func(o *BlockObs) string) string {
 	return "missing"
 }
 
-func emitHistory(out *Out, spec *Spec, execs []Exec, tag string) {
+// splitGas splits an observation code:codespace:data:gasWanted:gasUsed into (everything but gasUsed, gasUsed)
+func splitGas(o string) (string, string) {
+	i := strings.LastIndex(o, ":")
+	if i < 0 {
+		return o, o
+	}
+	return o[:i], o[i+1:]
+}
+
+func emitHistory(out *Out, spec *Spec, execs []Exec, how []string, tag string) {
 	N := len(execs)
+	var restarted, steady []int
+	for k := range execs {
+		if strings.Contains(how[k], "restarted") {
+			restarted = append(restarted, k)
+		} else {
+			steady = append(steady, k)
+		}
+	}
+	pick := func(xs []string, idx []int) []string {
+		o := make([]string, len(idx))
+		for i, k := range idx {
+			o[i] = xs[k]
+		}
+		return o
+	}
 	for bi, b := range spec.Blocks {
 		hashes := make([]string, N)
 		ends := make([]string, N)
@@ -152,6 +176,25 @@ func emitHistory(out *Out, spec *Spec, execs []Exec, tag string) {
 					}
 					return "missing"
 				})
+			}
+			stateless := ti < len(b.Stateless) && b.Stateless[ti]
+			if stateless && IsRestartPoint(len(spec.Blocks), bi) && len(restarted) > 0 && len(steady) > 1 {
+				// The position — a stateless-invalid transaction in the first block after a restart — is decided by the
+				// structure of the history, never by the outcome.  Everything except GasUsed must agree across ALL
+				// executions; GasUsed must agree among the executions that were not restarted and among those that
+				// were; only "GasUsed is the same with and without the restart" carries the tag of finding F25.
+				rest := make([]string, N)
+				gas := make([]string, N)
+				for k := range rs {
+					rest[k], gas[k] = splitGas(rs[k])
+				}
+				out.Emit(fmt.Sprintf("chk allEqual tag=txresult.%s n=%d h=%d i=%d kind=%s part=code:codespace:data:gaswanted | %s", tag, N, b.Height, ti, b.Labels[ti], strings.Join(rest, " ")), "true", "tx", true)
+				out.Emit(fmt.Sprintf("chk allEqual tag=txresult.%s n=%d h=%d i=%d kind=%s part=gasused.not-restarted | %s", tag, len(steady), b.Height, ti, b.Labels[ti], strings.Join(pick(gas, steady), " ")), "true", "tx", true)
+				if len(restarted) > 1 {
+					out.Emit(fmt.Sprintf("chk allEqual tag=txresult.%s n=%d h=%d i=%d kind=%s part=gasused.restarted | %s", tag, len(restarted), b.Height, ti, b.Labels[ti], strings.Join(pick(gas, restarted), " ")), "true", "tx", true)
+				}
+				out.Emit(fmt.Sprintf("chk allEqual tag=txresult.restarted.validatebasic.gasused n=%d hist=%s h=%d i=%d kind=%s modes=%s | %s", N, tag, b.Height, ti, b.Labels[ti], sanitize(strings.Join(how, ",")), strings.Join(gas, " ")), "true", "tx.f25", true)
+				continue
 			}
 			out.Emit(fmt.Sprintf("chk allEqual tag=txresult.%s n=%d h=%d i=%d kind=%s | %s", tag, N, b.Height, ti, b.Labels[ti], strings.Join(rs, " ")), "true", "tx", true)
 		}
@@ -299,7 +342,7 @@ func init() {
 		} {
 			p, tag := mk()
 			execs, how := runAll(p.Spec, p.Obs, N, outDir)
-			emitHistory(out, p.Spec, execs, tag)
+			emitHistory(out, p.Spec, execs, how, tag)
 			ntx := 0
 			for _, b := range p.Spec.Blocks {
 				ntx += len(b.Txs)
@@ -307,6 +350,7 @@ func init() {
 			for k, v := range p.Hist {
 				hist[tag+"/"+k] += v
 			}
+			how = append([]string(nil), how...)
 			sort.Strings(how)
 			info[tag] = map[string]interface{}{"blocks": len(p.Spec.Blocks), "txs": ntx, "executions": how, "events": p.Events}
 		}
